@@ -106,7 +106,7 @@ def _run(ctx):
     for n, (label, consts) in enumerate(models):
         cfg = tlc.write_cfg(os.path.join(ctx.scratch, "framing_%d.cfg" % n), constants=consts, invariants=INVARIANTS,
                             deadlock=False)
-        res, nodes, edges, init = tlc.state_graph("Framing", cfg, ctx.scratch, coverage=True, timeout=1500)
+        res, nodes, edges, init = tlc.state_graph("Framing", cfg, ctx.scratch, coverage=True, timeout=1500, workers=4)
         ctx.add_tlc(res, "exhaustive " + label)
         if res.violation:
             _spec_violation(ctx, res, label)
